@@ -54,7 +54,7 @@ def gen_exhaustive(tier, rng):
         for b in pool:
             for c in pool:
                 toks = (a, b, c)
-                if admissible(toks) and (tier != 'quick' or rng.random() < 0.15):
+                if admissible(toks) and (tier != 'quick' or rng.random() < 0.1):
                     yield ('exhaustive', 1, [straight(toks), [], ''])
     if tier != 'quick':
         for toks in itertools.product(first, pool, pool, pool):
